@@ -19,10 +19,15 @@ import (
 	"github.com/fatedier/frp/pkg/util/log"
 	"github.com/fatedier/frp/pkg/util/util"
 	"github.com/fatedier/frp/server"
+	golog "github.com/fatedier/golib/log"
 )
 
-// Quiet silences frp's logger (drivers' output ends up in check logs).
-func Quiet() { log.InitLogger("/dev/null", "error", 1, true) }
+// Quiet silences frp's logger (drivers' output ends up in check logs).  It must not go through
+// log.InitLogger with a path: that installs a daily-rotating file writer, and on "/dev/null" the
+// rotation renames the device node and leaves a regular file in its place.
+func Quiet() {
+	log.Logger = log.Logger.WithOptions(golog.WithOutput(io.Discard), golog.WithLevel(golog.ErrorLevel))
+}
 
 // FreePort asks the OS for a free TCP port on addr.
 func FreePort(addr string) int {
